@@ -217,6 +217,12 @@ fn oracle_rel(out: &mut Out, case: &str, v: &[u8], shortbuf_seen: bool) {
     if ok.is_ok() {
         let back = RelativeName::from_octets(v.to_vec());
         out.check(back.as_ref().map(|n| n.as_slice() == v).unwrap_or(false), "wire_roundtrip_relative", case, &hex(v));
+        if let Ok(n) = back {
+            let text = format!("{}", n);
+            let again = RelativeName::<Vec<u8>>::from_str(&text);
+            out.check(again.as_ref().map(|m| m.as_slice() == v).unwrap_or(false), "display_parse_roundtrip_relative", case,
+                &format!("{} displayed as {:?} parses to {:?}", hex(v), text, again.map(|m| hex(m.as_slice()))));
+        }
     }
 }
 
@@ -261,8 +267,8 @@ fn gen_octets(r: &mut Rng) -> Vec<u8> {
     w
 }
 
-/// While the lead has not decided on the finding, its hits are only counted.
-const HOLD_UNCERTAIN_255: bool = true;
+/// Fixed in /repo (7d1010a): the class must stay silent.
+const HOLD_UNCERTAIN_255: bool = false;
 
 fn uncertain_case(out: &mut Out, w: &[u8]) {
     use domain::base::name::{ToName, UncertainName};
@@ -279,7 +285,7 @@ fn uncertain_case(out: &mut Out, w: &[u8]) {
                 // and what the conversions make of it
                 let abs = UncertainName::Relative(n.clone()).into_absolute().map(|a: Name<Vec<u8>>| a.as_slice().len());
                 let d = format!("from_octets returns a 255 octet relative name; into_absolute gives {:?} octets", abs);
-                if HOLD_UNCERTAIN_255 { out.count("held:uncertain_relative_255"); } else { known_hit(out, "uncertain_relative_255", &c, &d); }
+                if HOLD_UNCERTAIN_255 { out.count("held:uncertain_relative_255"); } else { out.check(false, "uncertain_relative_255", &c, &d); }
             } else {
                 oracle_rel(out, &c, n.as_slice(), false);
                 // chain with an absolute name: Chain::new_uncertain
@@ -414,6 +420,15 @@ fn text_case(out: &mut Out, s: &str) {
         Ok(Ok(UncertainName::Relative(n))) => format!("Ok:R:{}", hex(n.as_slice())),
         Ok(Err(e)) => last_word(&format!("{:?}", e)) };
     out.case(&c, &format!("abs={} rel={} unc={}", wa, wr, wu), s.len() > 1, "from_chars");
+    {
+        use domain::base::name::OwnedLabel;
+        let c = format!("olabel {}", chars_word(s));
+        let o = catch(|| OwnedLabel::from_chars(s.chars()).map(|l| l.as_label().as_slice().to_vec()));
+        let w = match &o { Err(_) => "Panic".into(), Ok(Ok(v)) => format!("Ok:{}", hex(v)), Ok(Err(e)) => last_word(&format!("{:?}", e)) };
+        out.case(&c, &w, s.len() > 1, "owned_label_from_chars");
+        out.check(o.is_ok(), "owned_label_panic", &c, "");
+        if let Ok(Ok(v)) = &o { out.check(v.len() <= 63, "owned_label_too_long", &c, &hex(v)); }
+    }
     out.check(a.is_ok() && rl.is_ok() && u.is_ok(), "from_chars_panic", &c, "");
     if let Ok(Ok(n)) = &a { oracle_abs(out, &c, n.as_slice(), false); }
     if let Ok(Ok(n)) = &rl { oracle_rel(out, &c, n.as_slice(), false); }
@@ -428,6 +443,9 @@ fn display_case(out: &mut Out, w: &[u8]) {
     let c = format!("disp {}", hex(w));
     let text = format!("{}", n);
     out.case(&c, &chars_word(&text), w.len() > 1, "display");
+    let rw = &w[..w.len() - 1];
+    let rn = RelativeName::from_octets(rw.to_vec()).unwrap();
+    out.case(&format!("dispr {}", hex(rw)), &chars_word(&format!("{}", rn)), rw.len() > 1, "display_relative");
 }
 
 
@@ -563,6 +581,9 @@ fn zf_name_text(r: &mut Rng, labels: &[Vec<u8>], absolute: bool, esc_label: Opti
 fn zf_labels(r: &mut Rng, total: usize) -> Vec<Vec<u8>> {
     steered_label_lens(r, total).into_iter().map(|l| (0..l).map(|_| b'a' + r.below(26) as u8).collect()).collect()
 }
+/// While the lead has not decided on the finding, its hits are only counted.
+const HOLD_ZONEFILE_EMPTY_LABEL: bool = true;
+
 fn zonefile_case(out: &mut Out, r: &mut Rng) {
     use domain::base::name::{ToLabelIter, ToName};
     use domain::rdata::ZoneRecordData;
@@ -585,7 +606,13 @@ fn zonefile_case(out: &mut Out, r: &mut Rng) {
         }
         if wire == 255 && labels.iter().all(|l| l.len() <= 63) { cov255.set(true); }
         if wire == 256 && labels.iter().all(|l| l.len() <= 63) { cov256.set(true); }
-        zf_name_text(r, &labels, absolute, esc)
+        let mut t = zf_name_text(r, &labels, absolute, esc);
+        if r.chance(1, 8) {
+            // an empty label: a doubled dot somewhere (never at the very start: that is the root spelling)
+            let dots: Vec<usize> = t.char_indices().filter(|&(i, c)| c == '.' && i > 0 && &t[i - 1..i] != "\\").map(|(i, _)| i).collect();
+            if let Some(&i) = dots.get(r.below(dots.len().max(1) as u64) as usize) { t.insert(i, '.'); expect_ok.set(false); }
+        }
+        t
     };
     let which = r.below(3);
     let owner = mk(r, which != 1);
@@ -628,6 +655,11 @@ fn zonefile_case(out: &mut Out, r: &mut Rng) {
             if names.is_empty() == expect_ok.get() { out.count(if expect_ok.get() { "zonefile_valid_but_rejected" } else { "zonefile_invalid_but_accepted" }); }
             for (c, cl, labels) in names {
                 let ok = check_abs(&c);
+                if ok == Err("root_label_in_relative_name") {
+                    let d = format!("scanned name has an empty label inside: {}", hex(&c));
+                    if HOLD_ZONEFILE_EMPTY_LABEL { out.count("held:zonefile_empty_label"); } else { out.check(false, "zonefile_empty_label", &case, &d); }
+                    continue;
+                }
                 out.check(ok.is_ok(), "zonefile_name_invalid", &case, &format!("{:?}: {} octets {}", ok, c.len(), hex(&c)));
                 out.check(cl == c.len() && labels == c.len(), "zonefile_name_len_mismatch", &case, &format!("compose_len {} labels {} composed {}", cl, labels, c.len()));
             }
